@@ -530,10 +530,16 @@ pub fn run_c19_c(ctx: &Ctx) -> Outcome {
                     Ok(Ok(Ok(()))) => o.class("c:concurrent-refresh-answered"),
                 }
             }
-            match tokio::time::timeout(Duration::from_secs(30), session.refresh_metadata()).await {
+            // (run as a task of its own: if the driver drops the request unanswered the call panics inside the driver)
+            let last = {
+                let s2 = session.clone();
+                tokio::spawn(async move { s2.refresh_metadata().await.map_err(|e| e.to_string()) })
+            };
+            match tokio::time::timeout(Duration::from_secs(30), last).await {
                 Err(_) => o.violation("c19c:refresh-never-answered", "refresh_metadata() did not return within 30 s although the control node answers at once", json!({"part": "c", "burst": burst, "events": with_events, "seed": seed})),
-                Ok(Err(e)) => o.violation("c19c:refresh-failed", format!("refresh_metadata() failed: {e}"), json!({"part": "c", "burst": burst, "events": with_events, "seed": seed})),
-                Ok(Ok(())) => {
+                Ok(Err(join)) => o.violation("c19c:refresh-never-answered", format!("refresh_metadata() was dropped unanswered (the call panicked: {join})"), json!({"part": "c", "burst": burst, "events": with_events, "seed": seed})),
+                Ok(Ok(Err(e))) => o.violation("c19c:refresh-failed", format!("refresh_metadata() failed: {e}"), json!({"part": "c", "burst": burst, "events": with_events, "seed": seed})),
+                Ok(Ok(Ok(()))) => {
                     let got: BTreeSet<uuid::Uuid> = session.get_cluster_state().get_nodes_info().iter().map(|n| n.host_id).collect();
                     if got != expected {
                         o.violation(
